@@ -101,10 +101,8 @@ def run_case(case):
             core.write_text(d + "/in.gaf", "".join(l + "\n" for l in case["gaf"]))
             core.write_text(d + "/reads.fa", case["fasta"])
             drv = os.path.join(os.path.dirname(os.path.dirname(os.path.abspath(__file__))), "real_run_driver.py")
-            try:
-                p = subprocess.run([_sys.executable, drv, core.REPO, d, str(case["cores"]), str(case["batch"]), str(case["nofile"])],
-                                   timeout=300, stdout=subprocess.DEVNULL, stderr=subprocess.PIPE)
-            except subprocess.TimeoutExpired:
+            p = rc.run_group([_sys.executable, drv, core.REPO, d, str(case["cores"]), str(case["batch"]), str(case["nofile"])], 300)
+            if p is None:
                 raise RuntimeError("real-process run with many batches did not finish within 300 s (inconclusive)")
             core.check(p.returncode == 0, "real processes, %d batches, open-files limit %d: realign failed with status %d: %s",
                        len(case["gaf"]) // case["batch"], case["nofile"], p.returncode, p.stderr.decode(errors="replace")[-300:])
@@ -217,14 +215,17 @@ def enumerations(tier, shard, nshards):
             gfa = "S\ts1\t%s\tLN:i:60010\tSN:Z:chr1\tSO:i:0\tSR:i:0\nS\ts2\tACGTAC\tLN:i:6\tSN:Z:chr1\tSO:i:60010\tSR:i:0\nL\ts1\t+\ts2\t+\t0M\n" % big
             short = lambda nm, a: "%s\t30\t0\t30\t+\t>s1\t60010\t%d\t%d\t30\t30\t60\tcg:Z:30=" % (nm, a, a + 30)
             long_ = "zlong\t60005\t0\t60005\t+\t>s1\t60010\t2\t60007\t60005\t60005\t60\tcg:Z:60005="
-            fasta = "".join(">%s\n%s\n" % (nm, big[a:a + 30]) for nm, a in (("ya", 10), ("yb", 500), ("yc", 900), ("yd", 40))) + ">zlong\n%s\n" % big[2:60007]
-            for order in (["ya", "zlong", "yb", "yc"], ["zlong", "ya", "yb", "yd", "yc"], ["ya", "yb", "zlong"]):
+            # a clipped alignment of an ultra-long read: 30 aligned bases of a 60 005-base read are realigned like any other
+            clip = "zclip\t60005\t100\t130\t+\t>s1\t60010\t102\t132\t30\t30\t60\tcg:Z:30="
+            fasta = "".join(">%s\n%s\n" % (nm, big[a:a + 30]) for nm, a in (("ya", 10), ("yb", 500), ("yc", 900), ("yd", 40))) + (
+                ">zlong\n%s\n>zclip\n%s\n" % (big[2:60007], big[2:60007]))
+            for order in (["ya", "zlong", "yb", "yc"], ["zlong", "ya", "yb", "yd", "yc"], ["ya", "yb", "zlong"], ["ya", "zclip", "zlong", "yb"]):
                 pos = {"ya": 10, "yb": 500, "yc": 900, "yd": 40}
-                gaf = [long_ if nm == "zlong" else short(nm, pos[nm]) for nm in order]
+                gaf = [long_ if nm == "zlong" else clip if nm == "zclip" else short(nm, pos[nm]) for nm in order]
                 for cores, batch in ((1, 2), (2, 1), (2, 2), (3, 1)):
                     yield {"gfa": gfa, "gaf": gaf, "fasta": fasta, "cores": cores, "batch": batch, "choices": [0, 1, 0, 2], "kind": "sim"}
 
-        yield ("records of more than 60 000 read bases (passed through unchanged) among realigned ones: 3 orders x 4 cores/batch settings",
+        yield ("records of more than 60 000 read bases (passed through unchanged) and a clipped alignment of such a read among realigned ones: 4 orders x 4 cores/batch settings",
                longs(), True)
 
         yield ("real multiprocessing, %d one-record batches, cores=3, open-files limit lowered" % (160 if tier == "quick" else 600),
